@@ -98,6 +98,11 @@ PROPS = {
 
 
 def merge(pid, corr, r, samples):
+    if 'died' in r:
+        d = dict(r['died'])
+        d['line'] = d['line'].replace('! %s ' % d['line'].split()[1], '! %s ' % pid, 1)
+        corr['oracle_failures'].append(d)
+        return
     if 'error' in r:
         corr['errors'].append(r['error'])
         return
